@@ -182,17 +182,18 @@ class CSSMediaRule(cssrule.CSSRuleRules):
                 def atrule(expected, seq, token, tokenizer):
                     # TODO: get complete rule!
                     tokens = self._tokensupto2(tokenizer, token)
-                    atval = self._tokenvalue(token)
+                    # the token type is independent of case and escapes
+                    atval = self._type(token)
                     factories = {
-                        '@page': cssutils.css.CSSPageRule,
-                        '@media': CSSMediaRule,
+                        self._prods.PAGE_SYM: cssutils.css.CSSPageRule,
+                        self._prods.MEDIA_SYM: CSSMediaRule,
                     }
                     if atval in (
-                        '@charset ',
-                        '@font-face',
-                        '@import',
-                        '@namespace',
-                        '@variables',
+                        self._prods.CHARSET_SYM,
+                        self._prods.FONT_FACE_SYM,
+                        self._prods.IMPORT_SYM,
+                        self._prods.NAMESPACE_SYM,
+                        self._prods.VARIABLES_SYM,
                     ):
                         self._log.error(
                             'CSSMediaRule: This rule is not '
